@@ -266,12 +266,16 @@ fn declared(text: &str) -> Option<(usize, usize)> {
     Some((n, m))
 }
 
+/// the text declares at most moderate dimensions (the parser allocates what the header declares
+/// before reading anything else, so a text declaring 10^17 columns aborts the process)
+pub fn moderate_decl(text: &str) -> bool {
+    declared(text).is_none_or(|(n, m)| n <= MAX_DECL && m <= MAX_DECL)
+}
+
 pub fn check_text_str(text: &str, p: &mut Probe) -> Check {
-    if let Some((n, m)) = declared(text) {
-        if n > MAX_DECL || m > MAX_DECL {
-            p.class("skipped-large-declared-dims");
-            return Ok(());
-        }
+    if !moderate_decl(text) {
+        p.class("skipped-large-declared-dims");
+        return Ok(());
     }
     let res = guarded(|| SparseMatrix::from_alist(text)).map_err(|e| Fail::new("parser-panic", format!("from_alist panicked: {e}\ntext: {text:?}")))?;
     let strict = strict_alist(text, None);
